@@ -131,8 +131,16 @@ func (vm *VM) newPanic(msg any) *PanicError {
 	// vm.fn is nil if a deferred native function, called while the
 	// goroutine is panicking, panics.
 	if vm.fn != nil {
-		p.path = vm.fn.InstructionInfo[vm.pc].Path
-		p.position = vm.fn.InstructionInfo[vm.pc].Position
+		// vm.pc is the address of the instruction that has panicked plus one.
+		pc := vm.pc - 1
+		if vm.fn.Body[pc].Op == OpAssert {
+			// The position of a type assertion is stored with the Panic
+			// instruction that follows the Assert instruction.
+			pc++
+		}
+		info := vm.fn.InstructionInfo[pc]
+		p.path = info.Path
+		p.position = info.Position
 	}
 	return p
 }
